@@ -99,6 +99,27 @@ class M(Model):
         """Same-step conflicts: as many agents as possible legally select the same node (ties between two, three,
         ... agents are resolved by a random permutation inside the env); the others play a legal node."""
         lg = self.legal(s)
+        if (int(episode_seed[0]) + 2 * int(episode_seed[1])) % 3 == 0:
+            # siege (every third episode): one agent stays where it is (it selects its own node, which is not a move)
+            # while the others walk onto the free utility nodes around it - an unfinished agent that ends up boxed in
+            adj = self._adj(s)
+            pos = np.asarray(s.positions, np.int64)
+            idle = int(episode_seed[0]) % self.A
+            act = np.zeros(self.A, np.int64)
+            around = set(np.flatnonzero(adj[int(pos[idle])]).tolist()) if 0 <= int(pos[idle]) < self.N else set()
+            for a in range(self.A):
+                if a == idle:
+                    act[a] = int(pos[a]) if 0 <= int(pos[a]) < self.N else 0
+                    continue
+                idx = np.flatnonzero(lg[a])
+                if idx.size == 0:
+                    act[a] = 0
+                    continue
+                near = [v for v in idx.tolist() if v in around] or \
+                       [v for v in idx.tolist() if any(adj[v, u] for u in around)]
+                pool = near or idx.tolist()
+                act[a] = int(pool[(r + a) % len(pool)])
+            return act
         counts = lg.sum(axis=0)
         # free utility nodes first (a tie there decides who owns the node), any node otherwise
         util = np.asarray(s.node_types, np.int64) == -1
